@@ -52,6 +52,8 @@ pub struct Checker {
     pub last_fault_at: u64,
     pub caught_up_times: Vec<u64>,
     pub first_caught_up_after_quiet: Option<u64>,
+    /// virtual time of the last ban of a protocol-following peer (reported under C05)
+    pub last_honest_ban: Option<u64>,
     pub tip_ok_after_quiet: Option<u64>,
     pub audits: u64,
     pub snap: TrustSnap,
@@ -376,6 +378,7 @@ impl Checker {
                     }
                 }
             }
+            self.last_honest_ban = Some(sim.now);
             sim.violate(
                 "C05",
                 &clause,
@@ -533,6 +536,16 @@ impl Checker {
         }
         if sim.client.is_none() {
             return;
+        }
+        // A banned honest peer (a C05 violation, reported where it happens) stays away for five
+        // minutes: from the client's side the faults have not stopped, and the bounds below,
+        // which are counted from `quiet_from`, do not apply.
+        if let Some(t) = self.last_honest_ban {
+            if t + 300_000 > sim.plan.quiet_from {
+                sim.stat("probe.liveness_not_judged_after_honest_ban");
+                crate::oracle2::c18_at_end(self, sim);
+                return;
+            }
         }
         // bounded liveness (C05): with honest peers connected and faults stopped, the tip
         // must have reached the heaviest announced tip
